@@ -283,7 +283,10 @@ func txFieldMutator(field string) func(core.Transaction) bool {
 		t, _ := tx.(*core.DeployAccountTransaction)
 		return t
 	}
-	l1h := func(tx core.Transaction) *core.L1HandlerTransaction { t, _ := tx.(*core.L1HandlerTransaction); return t }
+	l1h := func(tx core.Transaction) *core.L1HandlerTransaction {
+		t, _ := tx.(*core.L1HandlerTransaction)
+		return t
+	}
 	rbAlter := func(res core.Resource, price, drop bool) func(core.Transaction) bool {
 		return func(tx core.Transaction) bool {
 			f := v3(tx)
@@ -509,7 +512,7 @@ func newEvent(seed uint64) *core.Event {
 	return &core.Event{From: chainkit.F(seed), Keys: []felt.Felt{*chainkit.F(seed + 1)}, Data: []felt.Felt{*chainkit.F(seed + 2)}}
 }
 
-func eventEq(a, b *core.Event) bool   { return reflect.DeepEqual(a, b) }
+func eventEq(a, b *core.Event) bool       { return reflect.DeepEqual(a, b) }
 func msgEq(a, b *core.L2ToL1Message) bool { return reflect.DeepEqual(a, b) }
 
 // mutatorFor resolves a field name of MCBlockVerify.tla; nil = unknown name (machinery error).
